@@ -24,7 +24,9 @@ def run(chk):
     nv = vander.van_rule(chk, db, "C03-D3.vandermonde")
     nw = vander.walk_rule(chk, db, "C03-D3.vandermonde")
     chk.floor("C03-D3.vandermonde", nv, 30, "paired appends in van_matrix")
-    chk.floor("C03-D3.vandermonde", nw, 5, "ancestor walks in van_matrix")
+    ncell = vander.cell_rule(chk, db, "C03-D3.vandermonde")
+    chk.floor("C03-D3.vandermonde", nw + vander.cell_rule.other_shape, 5, "ancestor walks in van_matrix (while-loop walks compared with getParent step by step, other shapes executed row by row)")
+    chk.floor("C03-D3.vandermonde", ncell, 1, "ancestor walk of the piecewise-constant rule executed row by row")
     chk.rule("C03-D4.workset", "every selection between the loaded and the needed point set (the set whose space getGlobalPolynomialSpace lists, evaluate() uses and getInterpolationWeights spans) "
                                "takes the loaded points whenever there are any")
     ns = workset.workset_rule(chk, db, "C03-D4.workset")
